@@ -62,6 +62,9 @@ def coverage_world(seed, kinds, annotated=False):
         elif kind in ("valleys", "valleys_tail", "long_sparse", "bridged"):
             # splitting only happens at a coverage valley that lies >= 128 bins (32 kb) after the current region start,
             # so clusters are long: [cover >= 33 kb] [dense block] [valley = one thin read] [cover >= 33 kb] ...
+            if len(clusters) % 2 == 1 or kind == "bridged":
+                # the leftmost alignment of the cluster begins exactly at the first base of a 256-bp bin (0-based start divisible by 256)
+                start = (start // BIN + 1) * BIN + 1
             cur = start
 
             def cover(length, step, rlen):
